@@ -111,7 +111,7 @@ PROPERTIES: dict[str, dict] = {
         "assumptions": COMMON_ASSUMPTIONS,
     },
     "C12": {
-        "rules": ["R-EFFECT", "R-COPY", "R-BIJ", "R-GLOBAL", "R-REBUILD", "R-ATTRREAD", "R-RECMERGE", "R-CARRY"],
+        "rules": ["R-EFFECT", "R-COPY", "R-BIJ", "R-GLOBAL", "R-REBUILD", "R-ATTRREAD", "R-RECMERGE", "R-EDGEDATA"],
         "thorough_rules": ["R-LIBSRC"],
         "technique": "effect analysis (mutation of arguments / shared objects) + bijection proof of relabel maps",
         "explanation": "canonicalize_molecule mutates nothing reachable from its argument; serialize_molecule writes only the scratch key `explored`, "
